@@ -747,6 +747,21 @@ def gen_long(ck, cap, out, rng, count, queries):
     al = ALPHA[ck]
     def text(n):
         return [al[0] + (i * 7 + i // 5) % 23 if rng.random() < 0.9 else rng.choice(al) for i in range(n)]
+    # deterministic part: sources of exactly capacity, capacity - 1 and 129 characters through every member that copies,
+    # measures or walks a source
+    for n in [cap, cap - 1, 129]:
+        l = [c for c in text(n) if c != 0]
+        l = l + [al[1]] * (n - len(l))
+        for o in ["zcs", "zeq", "kz", "zr", "zrr", "zrf", "zri", "zv", "kv", "zst", "acs", "pez", "ast", "pes", "av", "pev", "ar", "arr", "arf", "ari"]:
+            out.append(hist(ck, cap, [f"{o} {L(l)}", "pop", f"pb {al[0]}"]))
+        out.append(hist(ck, cap, [f"asp {L(l)} {n}", "pop", f"pb {al[0]}"]))
+        out.append(hist(ck, cap, [f"ap {L(l)} {n}", f"er 1 {n - 2}"]))
+        out.append(hist(ck, cap, [f"ip 0 {L(l)} {n}", f"erng 1 {n - 2}"]))
+        out.append(hist(ck, cap, [f"sw {L(l)}", f"sub 1 {NPOS}"]))
+        out.append(hist(ck, cap, [f"ics 0 {L(l)}", f"rs {n // 2} {al[0]}"]))
+        out.append(hist(ck, cap, [f"asp {L(l[:n // 2])} {n // 2}", "asts"]))
+        out.append(hist(ck, cap, [f"asp {L(l[:n // 2])} {n // 2}", f"aps 0 {n // 2}"]))
+        out.append(hist(ck, cap, [f"asp {L(l[:n // 2])} {n // 2}", f"ips 1 0 {n // 2}"]))
     for _ in range(count):
         n = rng.randint(60, cap)
         l = text(n)
